@@ -603,7 +603,7 @@ func (w *World) ctxFor(st *Step) context.Context {
 // its own.
 func laneOf(i int, st *Step) string {
 	switch st.Op {
-	case "activate", "deactivate", "attach", "detach", "remove", "sync", "update", "undo", "redo":
+	case "activate", "deactivate", "attach", "detach", "remove", "sync", "update", "undo", "redo", "newclient":
 		return fmt.Sprintf("client%d", st.C)
 	case "ps":
 		return fmt.Sprintf("%s%02d", st.Flag, st.C)
@@ -641,10 +641,22 @@ func (w *World) execPar(st *Step) (res StepResult) {
 		s.TickPct = w.Cfg.Extra["tick_pct"]
 		s.FairTicks = true
 	}
+	s.CrashPct = w.Cfg.Extra["crash_permille"]
 	w.LastSchedTrace = nil
 	s.Run()
 	w.Sched = nil
 	w.LastSchedTrace = s.Trace
+	if s.Crashed {
+		res.Out = "crashed"
+	}
+	defer func() {
+		if w.gen.dead && s.Viol == nil {
+			if err := w.Restart(); err != nil {
+				panic(err)
+			}
+			w.probe("crash_restart")
+		}
+	}()
 	w.Stats.Probes["sched_steps"] += s.stepNo
 	for _, t := range s.tasks {
 		if t.err != nil {
